@@ -203,14 +203,19 @@ func (lv *LeafVariants) GetHighestPrecedence(onlyNewOrUpdated bool, includeDefau
 		// on a result != nil that is then not marked for deletion
 		// start comparing priorities and choose the one with the
 		// higher prio (lower number)
+		candidate := e
 		if highest.Priority() > e.Priority() {
-			secondHighest = highest
+			candidate = highest
 			highest = e
-		} else {
-			// check if the update is at least higher prio (lower number) then the secondHighest
-			if secondHighest == nil || secondHighest.Priority() > e.Priority() {
-				secondHighest = e
-			}
+		}
+		// the secondHighest takes over if the highest is deleted, hence it must
+		// not be an entry that is marked for deletion itself.
+		if candidate.GetDeleteFlag() {
+			continue
+		}
+		// check if the update is at least higher prio (lower number) then the secondHighest
+		if secondHighest == nil || secondHighest.Priority() > candidate.Priority() {
+			secondHighest = candidate
 		}
 	}
 
